@@ -2,6 +2,7 @@
 from props import cells
 
 RULE = ('all 31 data commands on arrays of rank 1-3 incl. length-1 axes; each case is re-run on a common random permutation of the cells reshaped to another shape of the same size; shape and rearranged cells compared, and the first run compared with the Coq model. non-trivial = distinct case of rank >= 2 or with >= 3 cells')
+RULE += (' Every stream also has a stratified part: each command once per unusual element type (uint64 as the NetCDF reader returns for Positive Integer, uint8, int16), weighted commands with a weight of exactly 0 next to a cell missing only in that input, nine to twelve input layers, the same result mentioned twice, inputs re-laid in memory (Fortran order, transposed / reversed / strided views), B written before A, a Metadata argument on every third run. Every case is re-run on a re-laid copy of its inputs; every command once on a rank-3 and a rank-2 grid without length-1 axes; large rasters made of tiled blocks; layers of different rank whose shapes share a prefix.')
 TRUSTED = ["exact reference evaluator in drivers/cells_common.py (written from the property statements and the user documentation)",
            "numpy.ma.std enters the model as the oracle sigma (checked against the exact variance to 2^-20 relative)"]
 ASSUMPTIONS = ["exact rational arithmetic; IEEE rounding is absorbed by the tolerance 2^-36 relative; nan/inf results are not printable into Coq and are judged by the oracle only"]
